@@ -6,6 +6,9 @@ import VlsModel.Gen.FnKvvKeys
 import VlsModel.Gen.FnKvvPass
 import VlsModel.Gen.FnNodePrune
 import VlsModel.Gen.FnNodeForget
+import VlsModel.Gen.FnNodeSync
+import VlsModel.Gen.FnNodeStateRestore
+import VlsModel.Gen.FnKvvSuffix
 import VlsModel.Gen.FnNodeNewChannel
 import VlsModel.Gen.FnTrackerEntry
 import VlsModel.Gen.FnTrackerEntryRestore
@@ -875,5 +878,171 @@ example :
   intro node; rfl
 
 end NewChannel
+
+/-! ### `extract_key_suffix` (kvv.rs) translated (`Gen.FnKvvSuffix`, `fn_targets/KvvSuffix.b5.json`) -/
+section KvvSuffix
+open VlsModel.Gen.FnKvvSuffix
+
+/-- **C11_fn_kvv_extract_key_suffix**: the function by which `get_nodes` / `get_node_channels` turn a listed store key back into the
+    id it was written under (`C11_fn_kvv_make_key`: prefix + hex of the id): it answers exactly when the prefix ends with the
+    separator, the key starts with the prefix and the rest is hex — then with the decoded bytes — and in every other case it
+    ABORTS (a panic, never a refusal and never a skipped entry): a restart does not silently drop a stored channel or node. -/
+theorem C11_fn_kvv_extract_key_suffix (endsSep : String → Bool) (strip : String → String → VlsModel.Rs.M String)
+    (hexDecode : String → Option (List Nat)) (pre key : String)
+    (hstrip : ∀ k p, strip k p = .error .panic ∨ ∃ s, strip k p = .ok s) :
+    (∀ sfx b, endsSep pre = true → strip key pre = .ok sfx → hexDecode sfx = some b →
+      extract_key_suffix endsSep strip hexDecode pre key = .ok b) ∧
+    (∀ b, extract_key_suffix endsSep strip hexDecode pre key = .ok b →
+      endsSep pre = true ∧ ∃ sfx, strip key pre = .ok sfx ∧ hexDecode sfx = some b) ∧
+    ((∃ b, extract_key_suffix endsSep strip hexDecode pre key = .ok b) ∨
+      extract_key_suffix endsSep strip hexDecode pre key = .error .panic) := by
+  unfold extract_key_suffix
+  cases he : endsSep pre <;> rcases hstrip key pre with hs | ⟨s, hs⟩ <;>
+    simp [he, hs, VlsModel.Rs.assert, VlsModel.Rs.panic, VlsModel.Rs.unwrap, bind, Except.bind, pure, Except.pure]
+  cases hd : hexDecode s <;> simp [VlsModel.Rs.unwrap, VlsModel.Rs.panic, pure, Except.pure] <;>
+    (intro sfx b hsb; subst hsb; simp_all)
+
+/-- non-vacuity -/
+example : extract_key_suffix (fun _ => true) (fun _ _ => .ok "0a") (fun _ => some [10]) "channel/" "channel/0a" = .ok [10] ∧
+    extract_key_suffix (fun _ => true) (fun _ _ => .ok "zz") (fun _ => none) "channel/" "channel/zz" = .error .panic := ⟨rfl, rfl⟩
+
+end KvvSuffix
+
+/-! ### `NodeState::restore` / `NodeState::with_log_prefix` translated (`Gen.FnNodeStateRestore`, `fn_targets/NodeStateRestore.b5.json`):
+    the last two stages of the node-state restore path (`get_nodes` → `NodeState::restore` → `Node::new_full` → `with_log_prefix`) -/
+section NodeStateRestore
+open VlsModel.Gen.FnNodeStateRestore
+
+/-- **C11_fn_node_state_restore**: `NodeState::restore` puts every persisted component into its own field: the high-water mark,
+    the excess amount and the two velocity controls as given, the invoices / issued invoices / payments as decoded from the
+    stored vectors, the allowlist collected from the stored vector — nothing is defaulted, swapped or dropped (the decoders
+    of the three maps are parameters; a hash of the wrong length aborts). -/
+theorem C11_fn_node_state_restore {VelocityControl ScriptBuf Xpub PublicKey PaymentHash : Type}
+    (dInv dIss : List (List Nat × PaymentState) → VlsModel.Rs.M (List (PaymentHash × PaymentState)))
+    (dPay : List (List Nat) → List (PaymentHash × RoutedPayment)) (emp : String)
+    (aset : List (Allowable ScriptBuf Xpub PublicKey) → List (Allowable ScriptBuf Xpub PublicKey))
+    (iv isv : List (List Nat × PaymentState)) (pre : List (List Nat)) (excess : Nat) (vc fvc : VelocityControl) (hwm : Nat)
+    (al : List (Allowable ScriptBuf Xpub PublicKey)) (inv iss : List (PaymentHash × PaymentState))
+    (hi : dInv iv = .ok inv) (hs : dIss isv = .ok iss) :
+    ∃ st, NodeState.restore dInv dIss dPay emp aset iv isv pre excess vc fvc hwm al = .ok st ∧
+      st.dbid_high_water_mark = hwm ∧ st.excess_amount = excess ∧ st.velocity_control = vc ∧ st.fee_velocity_control = fvc ∧
+      st.invoices = inv ∧ st.issued_invoices = iss ∧ st.payments = dPay pre ∧ st.allowlist = aset al := by
+  unfold NodeState.restore
+  simp only [hi, hs, bind, Except.bind, pure, Except.pure]
+  exact ⟨_, rfl, rfl, rfl, rfl, rfl, rfl, rfl, rfl, rfl⟩
+
+/-- **C11_fn_node_state_with_log_prefix**: the step by which `Node::new_full` installs the restored state keeps every durable
+    component of it (high-water mark, invoices, issued invoices, payments, excess amount, allowlist) and takes the two
+    velocity controls it is handed (`update_velocity_controls` decides those: C12). -/
+theorem C11_fn_node_state_with_log_prefix {PaymentHash VelocityControl ScriptBuf Xpub PublicKey : Type} (emp : String)
+    (s : NodeState PaymentHash VelocityControl ScriptBuf Xpub PublicKey) (vc fvc : VelocityControl) (lp : String) :
+    let s' := s.with_log_prefix emp vc fvc lp
+    s'.dbid_high_water_mark = s.dbid_high_water_mark ∧ s'.invoices = s.invoices ∧ s'.issued_invoices = s.issued_invoices ∧
+    s'.payments = s.payments ∧ s'.excess_amount = s.excess_amount ∧ s'.allowlist = s.allowlist ∧
+    s'.velocity_control = vc ∧ s'.fee_velocity_control = fvc ∧ s'.log_prefix = lp :=
+  ⟨rfl, rfl, rfl, rfl, rfl, rfl, rfl, rfl, rfl⟩
+
+/-- non-vacuity: a stored state with mark 7 comes back with mark 7 -/
+example :
+    (NodeState.restore (VelocityControl := Nat) (ScriptBuf := Nat) (Xpub := Nat) (PublicKey := Nat) (PaymentHash := Nat)
+      (fun l => .ok (l.map (fun x => (x.1.length, x.2)))) (fun _ => .ok []) (fun _ => []) "" id [([1], ⟨⟩)] [] [] 0 5 6 7 []).map
+      (fun st => (st.dbid_high_water_mark, st.velocity_control, st.fee_velocity_control, st.invoices.length)) = .ok (7, 5, 6, 1) := rfl
+
+end NodeStateRestore
+
+/-! ### `Node::maybe_sync_persister` translated (`Gen.FnNodeSync`, `fn_targets/NodeSync.b5.json`): the start-up sync of a composite persister -/
+section NodeSync
+open VlsModel.Gen.FnNodeSync
+
+/-- a fold with unit state that returns has run its body successfully on every element -/
+theorem sync_fold_all {α : Type} (P : α → Prop) (f : Unit → α → VlsModel.Rs.M Unit)
+    (hstep : ∀ a, f () a = .ok () → P a) :
+    ∀ l : List α, List.foldlM f () l = .ok () → ∀ a ∈ l, P a := by
+  intro l
+  induction l with
+  | nil => intro _ a ha; cases ha
+  | cons x xs ih =>
+    intro h a ha
+    simp only [List.foldlM_cons, bind, Except.bind] at h
+    cases hf : f () x with
+    | error e => rw [hf] at h; cases h
+    | ok u =>
+      rw [hf] at h
+      rcases List.mem_cons.mp ha with rfl | ha'
+      · exact hstep _ hf
+      · exact ih h a ha'
+
+/-- **C11_fn_maybe_sync_persister**: when the persister reports an initial restore (a composite whose main store was lost) and
+    `Node::maybe_sync_persister` returns `Ok`, then the node entry (`new_node`), the allowlist, the tracker and — for EVERY slot
+    of the channel map, in whatever order the map is walked — the stub (`new_channel`, an existing entry tolerated) or the ready
+    channel (`update_channel`) were written and acknowledged: nothing of the signer's state is left out of the re-sync.
+    Without an initial restore nothing is written (the result is `Ok` for every persister). -/
+theorem C11_fn_maybe_sync_persister {PublicKey Network ChainTracker ChannelId Persist : Type}
+    (init : Persist → Bool) (st : Node PublicKey Network ChainTracker ChannelId Persist → NodeState)
+    (newNode : Persist → PublicKey → NodeConfig Network → NodeState → Option Unit)
+    (wl : Node PublicKey Network ChainTracker ChannelId Persist → NodeState → List String)
+    (updAl : Persist → PublicKey → List String → Option Unit)
+    (trk : Node PublicKey Network ChainTracker ChannelId Persist → ChainTracker)
+    (updT : Persist → PublicKey → ChainTracker → Option Unit)
+    (chs : Node PublicKey Network ChainTracker ChannelId Persist → List (ChannelId × ChannelSlot))
+    (newCh : Persist → PublicKey → ChannelStub → Option Unit) (updCh : Persist → PublicKey → Channel → Option Unit)
+    (self : Node PublicKey Network ChainTracker ChannelId Persist) :
+    (init self.persister = false →
+      Node.maybe_sync_persister init st newNode wl updAl trk updT chs newCh updCh self = .ok ()) ∧
+    (init self.persister = true →
+      Node.maybe_sync_persister init st newNode wl updAl trk updT chs newCh updCh self = .ok () →
+      newNode self.persister self.node_id self.node_config (st self) = some () ∧
+      updAl self.persister self.node_id (wl self (st self)) = some () ∧
+      updT self.persister self.node_id (trk self) = some () ∧
+      ∀ e ∈ chs self, match e.2 with
+        | .Stub s => newCh self.persister self.node_id s = some ()
+        | .Ready c => updCh self.persister self.node_id c = some ()) := by
+  constructor
+  · intro hi
+    unfold Node.maybe_sync_persister
+    simp [hi, pure, Except.pure, bind, Except.bind]
+  · intro hi h
+    unfold Node.maybe_sync_persister at h
+    simp only [hi, Node.get_id, if_true, bind, Except.bind, pure, Except.pure] at h
+    cases h1 : newNode self.persister self.node_id self.node_config (st self) with
+    | none => simp [h1, VlsModel.Rs.okOr, VlsModel.Rs.fail] at h
+    | some u1 =>
+      cases h2 : updAl self.persister self.node_id (wl self (st self)) with
+      | none => simp [h1, h2, VlsModel.Rs.okOr, VlsModel.Rs.fail, pure, Except.pure] at h
+      | some u2 =>
+        cases h3 : updT self.persister self.node_id (trk self) with
+        | none => simp [h1, h2, h3, VlsModel.Rs.okOr, VlsModel.Rs.fail, pure, Except.pure] at h
+        | some u3 =>
+          refine ⟨rfl, rfl, rfl, ?_⟩
+          simp only [h1, h2, h3, VlsModel.Rs.okOr, pure, Except.pure] at h
+          split at h
+          · cases h
+          · rename_i u hfold
+            exact sync_fold_all (fun e : ChannelId × ChannelSlot => match e.2 with
+                | .Stub s => newCh self.persister self.node_id s = some ()
+                | .Ready c => updCh self.persister self.node_id c = some ()) _ (by
+              intro e he
+              obtain ⟨k, slot⟩ := e
+              cases slot with
+              | Stub s =>
+                cases hn : newCh self.persister self.node_id s with
+                | none => simp [hn, VlsModel.Rs.okOr, VlsModel.Rs.fail, bind, Except.bind] at he
+                | some u => exact hn
+              | Ready c =>
+                cases hn : updCh self.persister self.node_id c with
+                | none => simp [hn, VlsModel.Rs.okOr, VlsModel.Rs.fail, bind, Except.bind] at he
+                | some u => exact hn) _ hfold
+
+/-- non-vacuity: a stub and a ready channel in the map; every write acknowledged: `Ok`; the ready channel's write refused: an error -/
+example :
+    let node : Node Nat Nat Nat Nat Nat := { node_config := ⟨0⟩, channels := [(1, .Stub ⟨⟩), (2, .Ready ⟨⟩)], persister := 0, tracker := 0, state := ⟨⟩, node_id := 9 }
+    Node.maybe_sync_persister (fun _ => true) (fun n => n.state) (fun _ _ _ _ => some ()) (fun _ _ => []) (fun _ _ _ => some ())
+      (fun n => n.tracker) (fun _ _ _ => some ()) (fun n => n.channels) (fun _ _ _ => some ()) (fun _ _ _ => some ()) node = .ok () ∧
+    Node.maybe_sync_persister (fun _ => true) (fun n => n.state) (fun _ _ _ _ => some ()) (fun _ _ => []) (fun _ _ _ => some ())
+      (fun n => n.tracker) (fun _ _ _ => some ()) (fun n => n.channels) (fun _ _ _ => some ()) (fun _ _ _ => none) node
+      = VlsModel.Rs.fail "Status::internal" := by
+  intro node; exact ⟨rfl, rfl⟩
+
+end NodeSync
 
 end VlsModel.Props.C11Fn
